@@ -13,7 +13,7 @@
    returned State objects are read a second time after the last call of the sequence. *)
 From Coq Require Import List Ascii String Bool Arith PrimFloat.
 From Verif Require Import Base.Result Base.Str Base.Sexp Base.PyDict Base.Float
-  Model.Tokenizer Model.Types Model.Domain Model.Exec Spec.Pddl Spec.Grammar Corr.Common Corr.Core Proofs.C03_Defs.
+  Model.Tokenizer Model.Types Model.Domain Model.Exec Spec.Pddl Spec.Grammar Corr.Common Corr.Core Proofs.C03_Defs Proofs.C03_Weak.
 Import ListNotations.
 Open Scope string_scope.
 Open Scope list_scope.
@@ -93,43 +93,10 @@ Definition d40_class (a : action) : bool := negb (forallb eff_when_qfree (a_effs
      every other fact and fluent is unchanged (the frame);
    and, when the harness observed the visiting order, the model run in that order must give exactly the returned state
    (unless two effects of ONE group set the same fluent: the order inside a group's set is not observed). ----- *)
-Definition pure_dels (groups : list (list gprim)) : list atom :=
-  flat_map (fun g => filter (fun a => negb (atom_in a (adds_of g))) (dels_of g)) groups.
-
-Definition set_values (k : atom) (groups : list (list gprim)) : list float :=
-  flat_map (fun g => flat_map (fun x => match x with GSet a v => if atom_eqb a k then [v] else [] | _ => [] end) g) groups.
-
-Definition weak_succ_ok (s : state) (groups : list (list gprim)) (s' : state) : bool :=
-  let adds := flat_map adds_of groups in
-  let pdels := pure_dels groups in
-  forallb (fun a =>
-             let inA := atom_in a adds in
-             let inD := atom_in a pdels in
-             if inA && negb inD then atom_in a (facts s')
-             else if inD && negb inA then negb (atom_in a (facts s'))
-             else if inA then true
-             else Bool.eqb (atom_in a (facts s')) (atom_in a (facts s)))
-          (facts s ++ facts s' ++ adds ++ flat_map dels_of groups) &&
-  forallb (fun k =>
-             match set_values k groups with
-             | [] => match fluent_get k (fluents s'), fluent_get k (fluents s) with
-                     | Some x, Some y => float_eq x y
-                     | None, None => true
-                     | _, _ => false
-                     end
-             | vs => match fluent_get k (fluents s') with
-                     | Some x => existsb (float_eq x) vs
-                     | None => false
-                     end
-             end)
-          (map fst (fluents s) ++ map fst (fluents s') ++ flat_map sets_of groups).
-
+(* pure_dels, set_values, weak_succ_ok: Proofs/C03_Weak.v, where the oracle is proved sound (weak_succ_sound: the outcome of the
+   firing groups taken one after another in ANY order passes it) *)
 Definition weak_obs_ok (s : state) (groups : list (list gprim)) (o : obs state) : bool :=
   match o with Returned s' => weak_succ_ok s groups s' | Raised => false end.
-
-(* no group sets one fluent twice: then the model, run in the observed visiting order, predicts the state exactly *)
-Definition inner_determined (groups : list (list gprim)) : bool :=
-  forallb (fun g => no_dup_atoms (sets_of g)) groups.
 
 Definition judge_probe (w : world3) (md : mdomain) (sd : sdomain) (p : probe3) : list verdict :=
   let eps := v_eps w in
